@@ -1017,6 +1017,65 @@ pub fn gen_many_stores(rng: &mut Rng) -> Program {
     p
 }
 
+/// Message passing over a flag that is stored to more often than loom keeps stores (the ring of
+/// the last 7): a writer alternates data writes and flag stores, a reader loads the flag and
+/// acquires by load ordering or by fence, then looks at the data. `cell_data`: the data is a
+/// non-atomic cell written once (race reports, C04), otherwise a relaxed atomic (validity, C03).
+pub fn gen_many_stores_mp(rng: &mut Rng, cell_data: bool) -> Program {
+    let mut vs = ValueSrc::new();
+    let mut p = Program { atomics: vec![0, 0], n_cell: if cell_data { 1 } else { 0 }, ..Default::default() };
+    let n = rng.range(5, 10);
+    let mut w = Vec::new();
+    let mut flags = Vec::new();
+    let publish_at = rng.below(n);
+    for i in 0..n {
+        if cell_data {
+            if i == publish_at {
+                w.push(Op::CWrite { c: 0, v: vs.constant() });
+            }
+        } else if rng.chance(2, 3) {
+            w.push(Op::Store { a: 1, v: vs.constant(), o: MO::Rlx });
+        }
+        let f = vs.constant();
+        flags.push(f);
+        let o = if rng.chance(1, 5) {
+            MO::Rlx
+        } else {
+            MO::Rel
+        };
+        if rng.chance(1, 6) {
+            w.push(Op::Fence { o: MO::Rel });
+        }
+        w.push(Op::Store { a: 0, v: f, o });
+    }
+    let mut r = Vec::new();
+    let by_fence = rng.chance(2, 3);
+    r.push(Op::Load { a: 0, o: if by_fence { MO::Rlx } else { MO::Acq } });
+    if by_fence {
+        r.push(Op::Fence { o: *rng.pick(&[MO::Acq, MO::AcqRel, MO::Sc]) });
+    }
+    if cell_data {
+        // read the cell only if a flag at or after the publication was seen
+        let k = publish_at + rng.below(n - publish_at);
+        r.push(Op::If { pc: 0, eq: flags[k], then: Box::new(Op::CRead { c: 0 }) });
+    } else {
+        r.push(Op::Load { a: 1, o: MO::Rlx });
+        if rng.chance(1, 2) {
+            r.push(Op::Load { a: 0, o: MO::Rlx });
+        }
+    }
+    if rng.chance(1, 2) {
+        p.threads = vec![vec![Op::Spawn { t: 1 }, Op::Spawn { t: 2 }, Op::Join { t: 1 }, Op::Join { t: 2 }], w, r];
+    } else {
+        // the writer is main
+        let mut t0 = vec![Op::Spawn { t: 1 }];
+        t0.extend(w);
+        t0.push(Op::Join { t: 1 });
+        p.threads = vec![t0, r];
+    }
+    p
+}
+
 // ------------------------------------------------------------------------------------------
 // await family (C18): one thread at a time spins with yield_now on an atomic written elsewhere
 
